@@ -737,6 +737,20 @@ func (r *rec) search(tag string, bigdec bool, lo, hi, target *big.Int, t tol, p 
 	if img == nil || !ok {
 		img = bi(0)
 	}
+	if ok {
+		// the image OF THE RETURNED INPUT (not of the last input the search happened to evaluate)
+		evalsBefore := evals
+		if bigdec {
+			x := osmomath.NewBigDecFromBigIntWithPrec(new(big.Int).Set(res), osmomath.BigDecPrecision)
+			y := x.MulTruncate(x).MulInt(osmomath.NewBigIntFromBigInt(new(big.Int).Set(p.c2)))
+			y = y.Add(x.MulInt(osmomath.NewBigIntFromBigInt(new(big.Int).Set(p.c1)))).Add(mkBD(p.c0))
+			img = y.BigInt()
+		} else {
+			x := mkI(res)
+			img = x.Mul(x).Mul(mkI(p.c2)).Add(x.Mul(mkI(p.c1))).Add(mkI(p.c0)).BigInt()
+		}
+		evals = evalsBefore
+	}
 	ev := event{F: name, X: bigs(lo, hi, target, t.add, t.mul, p.c0, p.c1, p.c2),
 		N: []int{b2i(t.hasAdd), b2i(t.hasMul), t.dir, maxit, evals}, Ok: ok, R: tracelog.EncBig(res), W: bigs(img), Err: msg, Tag: tag,
 		A2: tracelog.EncBig(bi(0))}
